@@ -138,7 +138,8 @@ class CustomGateDef:
                 eval_params.append(exp)
             else:
                 subbed_exp = self.replace_param_indices(exp, params)
-                eval_params.append(float(eval_exp(subbed_exp)))
+                variables = {f'_p{i}': float(p) for i, p in enumerate(params)}
+                eval_params.append(float(eval_exp(subbed_exp, variables)))
         return eval_params
 
     def replace_param_indices(
@@ -146,10 +147,12 @@ class CustomGateDef:
         exp: lark.Tree,
         params: list[float],
     ) -> lark.Tree:
-        """Return a new tree with parameter indices replaced with values."""
+        """Return a new tree with parameter indices replaced with variables."""
         if isinstance(exp, lark.Token):
             if exp.type == 'PARAM_IDX':
-                return lark.Token('REAL', params[int(exp)])
+                # A name bound to the value at evaluation: pasting the number
+                # into the expression text would turn (-0.7)^2 into -0.7^2.
+                return lark.Token('ID', f'_p{int(exp)}')
             else:
                 return exp
         children = [self.replace_param_indices(c, params) for c in exp.children]
@@ -757,8 +760,8 @@ def eval_exp_recurse(tree: lark.Tree) -> Any:
     return code
 
 
-def eval_exp(tree: lark.Tree) -> Any:
-    return eval(eval_exp_recurse(tree), {}, eval_locals)
+def eval_exp(tree: lark.Tree, variables: dict[str, float] = {}) -> Any:
+    return eval(eval_exp_recurse(tree), {}, {**eval_locals, **variables})
 
 
 def eval_explist(tree: lark.Tree) -> Any:
